@@ -59,8 +59,8 @@ def check_convert(run, pkg):
                 raise AnalysisError(f"{fq}: expected two appends per frame")
             L = it.loops[ap[0].loops[0]]
             snap = L.target
-            okl = L.iter == ("attr", SN, "snapshots")
-            run.ob("R-LOOPDOM", fq, f"{tag}:frames", okl, "every frame is converted, in order", show(L.iter)[:40], witness=None if okl else "frames skipped", loc=fi.loc(L.node))
+            okl = eqv(L.iter, ("attr", SN, "snapshots"))
+            run.ob("R-LOOPDOM", fq, f"{tag}:frames", okl, "every frame is converted, in order", show(L.iter)[:40], witness=None if okl else "frames skipped", loc=fi.loc(L.node), sound=True)
             pts = box = None
             for e in ap:
                 v = e.data["call"][2][1]
@@ -138,8 +138,8 @@ def check_cal_neighbors(run, pkg, ndim):
         raise AnalysisError(f"{fq}: per-particle writes to the neighbour file not found")
     Lf, Li = it.loops[rows[0].loops[0]], it.loops[rows[0].loops[1]]
     n, i = Lf.target, Li.target
-    okf = Lf.iter == ("call", "builtins.range", (("attr", SN, "nsnapshots"),), ())
-    run.ob("R-LOOPDOM", fq, f"{tag}:frames", okf, "every frame is tessellated", show(Lf.iter)[:50], witness=None if okf else "frames skipped", loc=fi.loc(Lf.node))
+    okf = eqv(Lf.iter, ("call", "builtins.range", (("attr", SN, "nsnapshots"),), ()))
+    run.ob("R-LOOPDOM", fq, f"{tag}:frames", okf, "every frame is tessellated", show(Lf.iter)[:50], witness=None if okf else "frames skipped", loc=fi.loc(Lf.node), sound=True)
     # headers
     for nm, ws, token in ((".neighbor.dat", wn, True), (want_bond, wb, False)):
         hd = [w for w in ws if w.loops == (Lf.id,)]
@@ -158,9 +158,9 @@ def check_cal_neighbors(run, pkg, ndim):
     # tessellation inputs
     vc = [e for e in it.events if e.kind == "call" and e.data["call"][1] == ".compute" and set(e.loops) == {Lf.id}]
     CONV = ("call", pkg.func(f"{MOD}.convert_configuration").qual, (SN,), ())
-    okin = len(vc) == 1 and vc[0].data["call"][2][1] == ("tuple", (("sub", ("elem", CONV, 0), n), ("sub", ("elem", CONV, 1), n)))
+    okin = tri_lazy(lambda: (True if (len(vc) == 1) else None), lambda: eqv(vc[0].data["call"][2][1], ("tuple", (("sub", ("elem", CONV, 0), n), ("sub", ("elem", CONV, 1), n)))))
     run.ob("R-IDX", fq, f"{tag}:inputs", okin, "frame n is tessellated with box n and points n of the converted configuration", show(vc[0].data["call"][2][1])[:90] if vc else "?",
-           witness=None if okin else "box / points of another frame", loc=fi.loc())
+           witness=None if okin else "box / points of another frame", loc=fi.loc(), sound=True)
     voro = vc[0].data["call"][2][0] if vc else None
     NLIST = ("bin", "+", ("call", "numpy.array", (("attr", voro, "nlist"),), ()), C(1))
     # rows
@@ -173,8 +173,8 @@ def check_cal_neighbors(run, pkg, ndim):
     UNIQ = ("call", "numpy.unique", (("sub", NLIST, ("tuple", (FULL, C(0)))),), (("return_counts", C(True)),))
     atomid = ("sub", ("elem", UNIQ, 0), i)
     cn = ("sub", ("elem", UNIQ, 1), i)
-    okd = Li.iter == ("call", "builtins.range", (("sub", ("attr", ("elem", UNIQ, 0), "shape"), C(0)),), ())
-    run.ob("R-LOOPDOM", fq, f"{tag}:particles", okd, "one row per distinct centre id of the (1-based) bond list", show(Li.iter)[:80], witness=None if okd else "rows skipped / ids not shifted", loc=fi.loc(Li.node))
+    okd = eqv(Li.iter, ("call", "builtins.range", (("sub", ("attr", ("elem", UNIQ, 0), "shape"), C(0)),), ()))
+    run.ob("R-LOOPDOM", fq, f"{tag}:particles", okd, "one row per distinct centre id of the (1-based) bond list", show(Li.iter)[:80], witness=None if okd else "rows skipped / ids not shifted", loc=fi.loc(Li.node), sound=True)
     for nm, ws, fmt in ((".neighbor.dat", wn, "int"), (want_bond, wb, "float")):
         r2 = rowsegs(ws, 2)
         r3 = rowsegs(ws, 3)
@@ -189,7 +189,7 @@ def check_cal_neighbors(run, pkg, ndim):
         if len(r3) == 1:
             w3, s3 = r3[0]
             Lk = it.loops[w3.loops[2]]
-            okb = Lk.iter == ("call", "builtins.range", (cn,), ())
+            okb = eqv(Lk.iter, ("call", "builtins.range", (cn,), ()))
             kinds = [s_[0] for s_ in s3]
             val = s3[0][1] if s3 and s3[0][0] == "int" else None
             sep = len(s3) == 2 and s3[1][0] == "lit" and s3[1][1].strip() == "" and s3[1][1] != ""
@@ -206,16 +206,15 @@ def check_cal_neighbors(run, pkg, ndim):
                 # the cursor: initialised to 0 per frame, +1 per entry
                 incs = [e for e in it.events if e.kind == "aug" and e.data["name"] == cursor[2] and e.loops == w3.loops]
                 init = [e for e in it.events if e.kind == "assign" and e.data["name"] == cursor[2] and e.loops == (Lf.id,)]
-                okinc = len(incs) == 1 and incs[0].data["op"] == "+" and incs[0].data["value"] == C(1) and len(init) == 1 and init[0].data["value"] == C(0) and incs[0].seq > w3.seq
+                okinc = tri_lazy(lambda: (True if (len(incs) == 1) else None), lambda: (True if (incs[0].data["op"] == "+") else None), lambda: eqv(incs[0].data["value"], C(1)), lambda: (True if (len(init) == 1) else None), lambda: eqv(init[0].data["value"], C(0)), lambda: (True if (incs[0].seq > w3.seq) else None))
                 run.ob("R-IDX", fq, f"{tag}:cursor{nm}", okinc, "the bond cursor starts at 0 in every frame and advances by one per written entry", f"{len(incs)} increments, {len(init)} initialisations",
-                       witness=None if okinc else "entries repeated / skipped; second frame starts mid-list", loc=fi.loc()) if nm == ".neighbor.dat" else None
+                       witness=None if okinc else "entries repeated / skipped; second frame starts mid-list", loc=fi.loc(), sound=True) if nm == ".neighbor.dat" else None
         run.ob("R-PROTO", fq, f"{tag}:entries{nm}", ok_ent, f"{nm}: exactly cn blank-separated entries follow, taken from consecutive bonds " + ("(neighbour id, 1-based)" if fmt == "int" else "(bond weight)"), detail,
                witness=None if ok_ent else "number of entries differs from cn / wrong column / wrong bond", loc=fi.loc())
     ro = rowsegs(wo, 2)
-    okov = len(ro) == 1 and [s_[0] for s_ in ro[0][1]] == ["int", "lit", "int", "lit", "int", "lit"] and ro[0][1][0][1] == atomid and ro[0][1][2][1] == cn and \
-        ro[0][1][4][1] == ("sub", ("attr", voro, "volumes"), i) and ro[0][1][5][1] == "\n"
+    okov = tri_lazy(lambda: (True if (len(ro) == 1) else None), lambda: (True if ([s_[0] for s_ in ro[0][1]] == ["int", "lit", "int", "lit", "int", "lit"]) else None), lambda: (True if (ro[0][1][0][1] == atomid) else None), lambda: (True if (ro[0][1][2][1] == cn) else None), lambda: eqv(ro[0][1][4][1], ("sub", ("attr", voro, "volumes"), i)), lambda: (True if (ro[0][1][5][1] == "\n") else None))
     run.ob("R-PROTO", fq, f"{tag}:overall-row", okov, "overall file: one `id cn volume` line per particle (volume of that particle)", str([s_[0] for s_ in ro[0][1]]) if ro else "?",
-           witness=None if okov else "volume of another particle / fields permuted", loc=fi.loc())
+           witness=None if okov else "volume of another particle / fields permuted", loc=fi.loc(), sound=True)
     # order guard
     rs = [e for e in it.events if e.kind == "raise" and e.loops == (Lf.id, Li.id)]
     okg = False
@@ -248,16 +247,16 @@ def check_volume_matrix(run, pkg):
             for e in it.events:
                 if e.kind == "assign" and e.data["name"] == "points":
                     pts = e.data["value"]
-            okp = pts == ("call", "numpy.array", (("sub", ("elem", CONV, 1), nc),), ())
+            okp = eqv(pts, ("call", "numpy.array", (("sub", ("elem", CONV, 1), nc),), ()))
             alias = pts == ("sub", ("elem", CONV, 1), nc)
             run.ob("R-IDX", fq, "frame:points", okp, "points = a copy of the converted coordinates of frame nconfig", show(pts)[:80] if pts else "?",
-                   witness=None if okp else ("the caller's positions are displaced in place (alias of snapshot.positions for origin-centred boxes)" if alias else "coordinates of another frame"), loc=fi.loc())
+                   witness=None if okp else ("the caller's positions are displaced in place (alias of snapshot.positions for origin-centred boxes)" if alias else "coordinates of another frame"), loc=fi.loc(), sound=True)
             mats = [e for e in it.events if e.kind == "assign" and e.data["value"][0] == "call" and e.data["value"][1] == "numpy.zeros"]
             Np = ("sub", ("attr", pts, "shape"), C(0)) if pts else None
-            okm = bool(mats) and mats[0].data["value"][2][0] == ("tuple", (Np, ("bin", "*", Np, nd)))
+            okm = tri_lazy(lambda: (True if (bool(mats)) else None), lambda: eqv(mats[0].data["value"][2][0], ("tuple", (Np, ("bin", "*", Np, nd)))))
             badax = bool(mats) and any(x == ("sub", ("attr", pts, "shape"), nc) for x in walk(mats[0].data["value"]))
             run.ob("R-IDX", fq, "frame:size", okm, "the matrix is N x (N ndim) with N = number of points (axis 0 of the coordinates)", show(mats[0].data["value"])[:80] if mats else "?",
-                   witness=None if okm else ("the frame index is used as an axis number: nconfig = 1 gives N = 3" if badax else "matrix shape wrong"), loc=fi.loc())
+                   witness=None if okm else ("the frame index is used as an axis number: nconfig = 1 gives N = 3" if badax else "matrix shape wrong"), loc=fi.loc(), sound=True)
             voc = [e for e in it.events if e.kind == "call" and e.data["call"][1] == ".compute"]
             okbox = bool(voc) and all(e.data["call"][2][1][0] == "tuple" and e.data["call"][2][1][1][0] == ("sub", ("elem", CONV, 0), nc) and e.data["call"][2][1][1][1] == pts for e in voc)
             run.ob("R-IDX", fq, "frame:box", okbox, "every tessellation uses the box of frame nconfig and the working copy of its points", f"{len(voc)} tessellations",
@@ -279,8 +278,8 @@ def check_volume_matrix(run, pkg):
                     steps.append(v if e.data["op"] == "+" else -v)
                 if steps:
                     okseq = sp.expand(steps[0] - d) == 0 and sp.expand(steps[0] + steps[1] + d) == 0 and sp.expand(sum(steps)) == 0
-                okdom = Li.iter == ("call", "builtins.range", (Np,), ()) and Lj.iter == ("call", "builtins.range", (nd,), ())
-                run.ob("R-LOOPDOM", fq, "perturbation:domain", okdom, "every coordinate of every particle is displaced", f"{show(Li.iter)[:40]} x {show(Lj.iter)[:30]}", witness=None if okdom else "coordinates skipped", loc=fi.loc())
+                okdom = tri_lazy(lambda: eqv(Li.iter, ("call", "builtins.range", (Np,), ())), lambda: eqv(Lj.iter, ("call", "builtins.range", (nd,), ())))
+                run.ob("R-LOOPDOM", fq, "perturbation:domain", okdom, "every coordinate of every particle is displaced", f"{show(Li.iter)[:40]} x {show(Lj.iter)[:30]}", witness=None if okdom else "coordinates skipped", loc=fi.loc(), sound=True)
             run.ob("R-ALG", fq, "perturbation:sequence", okseq, "coordinate (i, j) is moved to +delta, then to -delta, then restored (net displacement 0)", f"{len(pst)} in-place steps",
                    witness=None if okseq else "the particle is not restored: later derivatives are taken around a drifting configuration", loc=fi.loc())
             blk = [e for e in stores(it) if len(e.loops) == 2 and e.data["target"][2][0] == "tuple" and e.data["target"][1] != pts]
@@ -319,12 +318,12 @@ def check_volume_matrix(run, pkg):
                 A = e.data["target"][1]
                 row, col = e.data["target"][2][1]
                 lo = ("bin", "*", nd, ii)
-                okslice = row == ii and col[0] == "slice" and col[1] in (lo, ("bin", "*", ii, nd)) and col[2] in (("bin", "+", lo, nd), ("bin", "+", ("bin", "*", ii, nd), nd))
+                okslice = tri_lazy(lambda: (True if (row == ii) else None), lambda: (True if (col[0] == "slice") else None), lambda: (True if (col[1] in (lo, ("bin", "*", ii, nd))) else None), lambda: eqv(col[2], ("bin", "+", lo, nd), ("bin", "+", ("bin", "*", ii, nd), nd)))
                 want = ("un", "-", ("call", ".sum", (("call", ".reshape", (("sub", A, ii), Np, nd), ()),), (("axis", C(0)),)))
                 lxe = [x for x in it.events if x.kind == "loop_exit" and x.data["loop"] == blk[0].loops[0]]
-                oks = okslice and e.data["value"] == want and L.iter == ("call", "builtins.range", (Np,), ()) and lxe and e.seq > lxe[0].seq and A == blk[0].data["target"][1]
+                oks = tri_lazy(lambda: (True if (okslice) else None), lambda: (True if (e.data["value"] == want) else None), lambda: eqv(L.iter, ("call", "builtins.range", (Np,), ())), lambda: (True if (lxe) else None), lambda: (True if (e.seq > lxe[0].seq) else None), lambda: (True if (A == blk[0].data["target"][1]) else None))
             run.ob("R-ALG", fq, "self-block", oks, "after all off-diagonal blocks are filled, block (i, i) = - sum over particles of row i's blocks (the row then sums to zero per displaced coordinate)", key_of(selfb[0])[:100] if selfb else "?",
-                   witness=None if oks else "rows do not sum to zero: a rigid translation changes the cell volumes", loc=fi.loc())
+                   witness=None if oks else "rows do not sum to zero: a rigid translation changes the cell volumes", loc=fi.loc(), sound=True)
             nrm = [e for e in it.events if e.kind == "aug" and e.data["op"] == "/" and not e.loops]
             orig = [e.data["value"] for e in it.events if e.kind == "assign" and e.data["name"] == "original"]
             okn = len(nrm) == 1 and orig and col_bcast(nrm[0].data["value"]) == orig[0] and nrm[0].data["value"] != orig[0] and selfb and nrm[0].seq > selfb[0].seq
@@ -335,7 +334,7 @@ def check_volume_matrix(run, pkg):
         okr = len(rets) == 1
         oks = okr and all(e.data["call"][2][0] == ("sym", "outputfile") and e.data["call"][2][1] == rets[0].data["value"] for e in sv) and len(sv) >= 1
         run.ob("R-SAVE", fq, f"{tag}:file", oks, f"with transform_matrix={tm} the file holds the returned matrix (path first, array second)", f"{len(sv)} saves, {len(rets)} returns",
-               witness=None if oks else "np.save arguments swapped / file holds another matrix than the one returned", loc=fi.loc())
+               witness=None if oks else "np.save arguments swapped / file holds another matrix than the one returned", loc=fi.loc(), sound=True)
         if tm and okr:
             A = sp.Symbol("A", commutative=False)
             ret = rets[0].data["value"]
